@@ -723,6 +723,12 @@ impl<'a> UserModel<'a> {
 
     /// We extend the selection to cell (target_row, target_column)
     pub fn on_area_selecting(&mut self, target_row: i32, target_column: i32) -> Result<(), String> {
+        if !is_valid_row(target_row) {
+            return Err(format!("Invalid row: '{target_row}'"));
+        }
+        if !is_valid_column_number(target_column) {
+            return Err(format!("Invalid column: '{target_column}'"));
+        }
         let (sheet, window_width, window_height) =
             if let Some(view) = self.model.workbook.views.get(&self.model.view_id) {
                 (
